@@ -39,9 +39,9 @@ K = {
              "missing": [""], "v6bare": ["::1", "2001:db8::7"]},
     "port": {"absent": [""], "emptycolon": [":"], "1965": [":1965"], "0": [":0"], "65535": [":65535"], "65536": [":65536", ":99999"],
              "abc": [":abc", ":-1", ":19 65"], "7070": [":7070", ":07070"]},
-    "path": {"empty": [""], "root": ["/"], "plain": ["/a/b.gmi", "/docs/index", "/~user/file.txt"], "pct": ["/a%20b/%C3%A9", "/%41%2F%3f"],
+    "path": {"empty": [""], "root": ["/"], "plain": ["/a/b.gmi", "/docs/index", "/~user/file.txt", "/caf\u00e9/\u65e5\u672c.gmi", "/notes/draft\u00a0", "/em\u2003"], "pct": ["/a%20b/%C3%A9", "/%41%2F%3f"],
              "params": ["/a;p=1/b;q", "/x;size=3"], "dslash": ["//double//x", "/a//"], "dots": ["/%2e%2e/x/../y", "/./a/."]},
-    "query": {"absent": [""], "emptyq": ["?"], "plain": ["?q=1&r=2", "?search%20term"], "qmark": ["?a=b?c=d", "??"]},
+    "query": {"absent": [""], "emptyq": ["?"], "plain": ["?q=1&r=2", "?search%20term", "?q=\u00e9t\u00e9", "?q=hello\u00a0"], "qmark": ["?a=b?c=d", "??"]},
     "frag": {"absent": [""], "frag": ["#frag", "#a/b"], "emptyfrag": ["#"]},
 }
 KINDS = {k: list(v) for k, v in K.items()}
